@@ -3,18 +3,28 @@ from translators import tr_c17
 
 PID = "C17"
 CLAIM = True
-MANIFEST_TEXT = ("Lean 4 theorems over an arbitrary linearly ordered field about the comparison formulas regenerated from float_cmp.cc on every run "
-                 "(documented definitions, symmetry, ne = not eq, exactly one of lt/eq/gt for epsilon >= 0, le = lt or eq, ge = gt or eq, vector eq = "
-                 "conjunction), about round/trunc in the four rounding styles (distance and direction clauses) and, over Int with a machine-width check on "
-                 "every intermediate, about power/factorial/binomial (exact value iff representable, symmetry, Pascal), sign and the any/all classifiers; "
-                 "the same generic model is executed over exact dyadics against float/double instantiations on inputs where every C++ intermediate is exact, "
-                 "and over an 8-bit rounding float format against the templates instantiated with a minifloat class (exhaustively in the thorough tier); "
-                 "integer helpers are run over every representable argument pair above small cut-offs.")
-MANIFEST_NOTE = ("Trusted: Lean kernel (+propext/Classical.choice/Quot.sound), tr_c17.py, the hand-written round/trunc/integer models (fidelity by differential "
-                 "execution only), GMP as oracle, g++/ASan/UBSan. IEEE rounding of non-dyadic float/double inputs is outside the model: there only the algebraic "
-                 "laws are checked by the oracle (op kind 'laws'). The vector overloads of round/trunc in float_cmp.cc cannot be instantiated (ambiguous partial "
-                 "specialisation) and are not covered.")
-TECHNIQUE = "Lean 4 proof over generic ordered-field model + translator for the comparison formulas + differential correspondence (exact dyadics, minifloat, GMP oracle)"
+MANIFEST_TEXT = ("Lean 4 theorems in three layers. (1) Over an arbitrary linearly ordered field, about the comparison formulas regenerated from float_cmp.cc on "
+                 "every run: documented definitions of eq/ne/lt/gt/le/ge for the three styles, symmetry, ne = not eq, exactly one of lt/eq/gt for epsilon >= 0, "
+                 "le = lt or eq, ge = gt or eq, vector eq = conjunction and the lexicographic trichotomy; round/trunc in the four rounding styles (distance < 1, "
+                 "nearest integer, ties within epsilon in the documented direction, floor/floor+1 and the snap rules, unsigned targets). (2) The functions the model "
+                 "driver actually executes on exact inputs (core Rat) are shown to be these generic functions at Q (rat_* theorems). (3) The comparison algebra "
+                 "(symmetry, reflexivity, trichotomy, le/ge decomposition, vectors) is proved verbatim in the ROUNDING arithmetic FP f of every binary floating-point "
+                 "format (fp_* theorems; all finite operands, overflow to infinity included). Over Int with a machine-width check on every intermediate: "
+                 "power/factorial/binomial return the exact value iff it is representable (symmetry, Pascal), sign over every ordered ring, any/all classifiers. "
+                 "The same model is run against the real code: over Q on float/double inputs whose C++ intermediates are exact (GMP re-checks that), over FP f "
+                 "bit for bit on arbitrary finite float/double/long double values incl. omitted (default) epsilons and every overload / FloatCmpOps member, over the "
+                 "8-bit format against the templates instantiated with a minifloat class (exhaustively in the thorough tier), integer helpers over every representable "
+                 "argument pair above small cut-offs.")
+MANIFEST_NOTE = ("Trusted: Lean kernel (+propext/Classical.choice/Quot.sound), tr_c17.py, the hand-written round/trunc/integer models and the IEEE rounding model FP "
+                 "(fidelity by differential execution against the hardware types and the harness minifloat), GMP as oracle, g++/ASan/UBSan, IEEE-754 conformance of "
+                 "float/double/long double arithmetic of the test machine. The documented definitions and the round/trunc distance/direction laws are theorems of exact "
+                 "arithmetic; for rounded arithmetic they are decided by the harness oracle up to one rounding per operation (three-valued), the algebraic laws are proved. "
+                 "Outside the checked domain: arguments whose neighbouring integers are not exactly representable in T (|val|+2 >= 2^digits; there the model is still "
+                 "compared bit for bit, but e.g. trunc<int,float>(2^24) = 2^24+1 is accepted), integer targets at the ends of their range (I(val)+-1 overflows), "
+                 "unsigned targets with val <= -1 (round) / val < 0 (trunc), NaN/infinite arguments, long double classifiers, narrow integer types. The vector overloads "
+                 "of round/trunc in float_cmp.cc cannot be instantiated (ambiguous partial specialisation, re-checked) and are not covered.")
+TECHNIQUE = ("Lean 4 proof over a generic ordered-field model and over an executable IEEE rounding model + translator for the comparison formulas and default epsilons + "
+             "differential correspondence (exact rationals, bit-exact float/double/long double, exhaustive minifloat, GMP oracle)")
 TRANSLATORS = [tr_c17.translate]
 HARNESS = dict(
     sources=["cxx_c17.cc"],
@@ -23,18 +33,24 @@ HARNESS = dict(
     flags=["-O0"],   # three floating types x four integer types x 12 style pairs of templates: -O1 triples the compile time
 )
 RULE = ("cases: cmp/cmpv (float,double x 3 styles; operand pairs placed on/next to the tolerance threshold, equal, opposite, zero; epsilons 0, <1, 1, >1), "
-        "round/trunc (4 rounding styles x int/long/unsigned targets; arguments at integers, halves, tie boundaries, distance epsilon from an integer), "
-        "laws on arbitrary finite bit patterns, minifloat mf/mfr/mfrow, pow/fact/binom at the representability boundary and exhaustive enumerations, "
-        "sign, classifiers with one non-finite component; distinct = distinct op lines; non-trivial = oracle decided a law/definition on a call of the real "
-        "code (skip/unrep lines and the documented-unsupported negative integer exponents are trivial)")
+        "round/trunc (4 rounding styles x int/long/unsigned targets; arguments at integers, halves, tie boundaries, distance epsilon from an integer, (-1,0] for unsigned round), "
+        "fcmp/fcmpv/fround/ftrunc (the same on arbitrary finite float/double/long double values: random bit patterns, subnormals, extremes, partners nudged a few ulps around the "
+        "threshold the code computes, epsilon omitted / default / 0 / tiny / >= 1/2; std::vector sizes 0..9 incl. unequal, FieldVector sizes 1..6,8), minifloat mf/mfr/mfrow "
+        "(exhaustive tables), pow/fact/binom at the representability boundary and exhaustive enumerations, sign, classifiers with one non-finite component, compile-time overloads "
+        "and documented defaults (static, defeps); distinct = distinct op lines; non-trivial = the oracle decided a law/definition on a call of the real code (skip/unrep lines, "
+        "documented-unsupported negative integer exponents and unsigned results standing for -1 are trivial)")
 ASSUMPTIONS = [
-    "the formulas of eq/ne/lt/gt/le/ge and the default epsilons are regenerated from float_cmp.cc by tools/translators/tr_c17.py; the style dispatch, vector loops, round/trunc and the integer helpers in lean/DuneVerif/Model/C17.lean are hand-written and tied by this differential run",
-    "float/double operands are dyadic with few significant bits (f32: 12 bits in a 2^±11 window, f64: 26 bits in a 2^±26 window) so that every C++ intermediate is exact; the harness re-checks that with GMP",
-    "the minifloat class is part of the harness (one rounding per operation, ties to even); its Lean counterpart MF is validated only through this run",
-    "power is run with |p| <= 4096; round/trunc arguments are far inside the range of the integer target type",
-    "the model of binomial describes the code after fixes/C17_binomial_overflow.patch",
+    "the formulas of eq/ne/lt/gt/le/ge and the default epsilons (float, double, long double, minifloat) are regenerated from float_cmp.cc by tools/translators/tr_c17.py; the style dispatch, vector loops, round/trunc and the integer helpers in lean/DuneVerif/Model/C17.lean are hand-written and tied by this differential run",
+    "ops cmp/cmpv/round/trunc: operands are dyadic with few significant bits (f32: 12 bits in a 2^+-11 window, f64: 26 bits in a 2^+-26 window) so that every C++ intermediate is exact; the harness re-checks that with GMP; the model side is evaluated over the rationals",
+    "ops fcmp/fcmpv/fround/ftrunc: arbitrary finite values; float/double/long double arithmetic of the machine is IEEE 754 round-to-nearest-even (binary32, binary64, x87 extended), which the Lean type FP f models; int<->float conversions round to nearest / truncate",
+    "the minifloat class is part of the harness (one rounding per operation, ties to even); it is modelled by the same FP f with f = (4 bits, emin -6, emax 7)",
+    "round/trunc: I(val), lower-1 and upper+1 stay inside the integer target type; unsigned targets: val >= 0 for trunc, val > -1 for round (the largest unsigned value then stands for -1)",
+    "the round/trunc oracle is silent (correspondence only) where the neighbouring integers are not exactly representable in T: |val| + 2 >= 2^digits(T)",
+    "power is run with |p| <= 4096",
+    "the model describes the code after fixes/C17_binomial_overflow.patch and fixes/C17_round_unsigned.patch",
 ]
-TRUSTED = ["g++/libstdc++, ASan/UBSan, GMP as oracle", "translator tr_c17.py", "harness/cxx_c17.cc + Driver/C17.lean parsing/printing"]
+TRUSTED = ["g++/libstdc++, ASan/UBSan, GMP as oracle", "translator tr_c17.py", "harness/cxx_c17.cc + Driver/C17.lean parsing/printing",
+           "IEEE-754 conformance of the machine's float/double/long double operations"]
 
 
 def batches(tier, seed):
